@@ -73,12 +73,25 @@ def run(ctx):
         if txt.count("pattern") >= 1 and txt.count("msg") >= 1 and any(A.int_literal(A.kids(r)[0]) == 0 for r in A.walk(A.kids(i)[1]) if r.get("kind") == "ReturnStmt" and A.kids(r)):
             pre_ok = derefs_param(c, pat_id) and derefs_param(c, msg_id)
     ctx.ob("R05.1", "digits required on both sides", pre_ok, site=A.where(fn), what="rtosc_match_number does not reject when pattern or message cursor is not at a digit")
-    loops = [x for x in A.walk(u.body(fn)) if x.get("kind") == "WhileStmt"]
+    # a digit-skipping loop in any spelling: its condition is isdigit of the cursor's character, and the cursor is stepped
+    # somewhere in the loop (body of a while, increment clause of a for)
+    loops = [x for x in A.walk(u.body(fn)) if x.get("kind") in ("WhileStmt", "ForStmt", "DoStmt")]
     adv = {"pattern": False, "message": False}
     for lp in loops:
-        c, b = A.kids(lp)[0], A.kids(lp)[-1]
+        if lp.get("kind") == "ForStmt":
+            raw = lp.get("inner", [])
+            c, rest = raw[2], [raw[3], raw[4]]
+        elif lp.get("kind") == "DoStmt":
+            c, rest = A.kids(lp)[1], [A.kids(lp)[0]]
+        else:
+            c, rest = A.kids(lp)[0], [A.kids(lp)[-1]]
+        if not c.get("kind"):
+            continue
+        isd = any(A.callee_name(k) == "isdigit" for k in A.calls_in(c)) or any((y.get("referencedDecl") or {}).get("name") == "_ISdigit" for y in A.walk(c) if y.get("kind") == "DeclRefExpr")
         for pid, nm in ((pat_id, "pattern"), (msg_id, "message")):
-            if derefs_param(c, pid) and derefs_param(b, pid) and any(x.get("kind") == "UnaryOperator" and x.get("opcode") == "++" for x in A.walk(b)):
+            steps = [x for r_ in rest if r_.get("kind") for x in A.walk(r_)
+                     if (x.get("kind") == "UnaryOperator" and x.get("opcode") == "++" or x.get("kind") == "CompoundAssignOperator" and x.get("opcode") == "+=") and derefs_param(x, pid)]
+            if isd and derefs_param(c, pid) and steps:
                 adv[nm] = True
     ctx.ob("R05.1", "digit runs consumed", all(adv.values()), site=A.where(fn), detail=adv, what="rtosc_match_number does not advance both cursors past their digits: %s" % adv)
 
@@ -104,7 +117,8 @@ def run(ctx):
     ctx.require(n >= 1, "no caller of rtosc_match_number")
     # '#' handled nowhere else in rtosc_match_path
     fnp = u.function("rtosc_match_path")
-    hashes = [x for x in A.walk(u.body(fnp)) if x.get("kind") == "BinaryOperator" and x.get("opcode") == "==" and A.int_literal(A.kids(x)[1]) == ord("#")]
+    hashes = [x for x in A.walk(u.body(fnp)) if x.get("kind") == "BinaryOperator" and x.get("opcode") == "==" and ord("#") in (A.int_literal(A.kids(x)[1]), A.int_literal(A.kids(x)[0]))]
+    hashes += [x for x in A.walk(u.body(fnp)) if x.get("kind") == "CaseStmt" and A.int_literal(A.kids(x)[0]) == ord("#")]
     ctx.ob("R05.2", "rtosc_match_path: single '#' branch", len(hashes) == 1, site=A.where(fnp), detail={"comparisons_with_#": len(hashes)},
            what="rtosc_match_path has %d branches that look at '#'" % len(hashes))
 
